@@ -29,6 +29,8 @@ import JPV.Spec.NonDet
 import JPV.Spec.Typing
 import JPV.Proofs.NonDet
 import JPV.Proofs.NonDetPermitted
+import JPV.Proofs.NonDetFilters
+import JPV.Proofs.Ndf.General
 namespace JPV.Props
 open JPV JPV.Impl
 
@@ -64,5 +66,27 @@ theorem C17_permitted (env : Env) (reg : Spec.Registry) (q : Query) (v : Json) (
     (hff : Spec.filterFree q = true) (hw : v.WF) (hd : (v.depth : Int) ≤ env.maxDepth) (h1 : 1 ≤ env.maxDepth) :
     ∃ r, ND.find env q v s = .ok r ∧ r ∈ Spec.ND.outcomes reg q v :=
   Proofs.nd_find_permitted env reg q v s hff hw hd h1
+
+/-- ... and WITH filter selectors: for every script, a well-typed query (any registry whose Python bodies
+implement typed functions that do not look at the order of the nodelists they receive — `length`, `count`,
+`value` do: `C17_permitted_builtin`) completes and returns one of the RFC-permitted nodelists.  The truth of a
+filter test does not depend on the script (`C17_test_script_independent`). -/
+theorem C17_permitted_wt (env : Env) (reg : Spec.Registry) (q : Query) (v : Json) (s : ND.Script)
+    (hc : EnvConforms env reg) (hoi : Proofs.Ndf.OrderInsensitive reg)
+    (hwt : Spec.wtQuery (sigsOf reg) q = true)
+    (hw : v.WF) (hd : (v.depth : Int) ≤ env.maxDepth) (h1 : 1 ≤ env.maxDepth) :
+    ∃ r, ND.find env q v s = .ok r ∧ r ∈ Spec.ND.outcomes reg q v ∧ r.Perm (Spec.select reg q v) := by
+  obtain ⟨r, h, hp⟩ := Proofs.nd_find_permitted_wt env reg q v s hc hoi hwt hw hd h1
+  obtain ⟨r', h', hperm⟩ := Proofs.nd_find_perm_wt env reg q v s hc hoi hwt hw hd h1
+  rw [h] at h'
+  cases h'
+  exact ⟨r, h, hp, hperm⟩
+
+theorem C17_permitted_builtin (env : Env) (q : Query) (v : Json) (s : ND.Script)
+    (hf : env.funcs = builtinEnv.funcs)
+    (hwt : Spec.wtQuery (sigsOf builtinReg) q = true)
+    (hw : v.WF) (hd : (v.depth : Int) ≤ env.maxDepth) (h1 : 1 ≤ env.maxDepth) :
+    ∃ r, ND.find env q v s = .ok r ∧ r ∈ Spec.ND.outcomes builtinReg q v :=
+  Proofs.nd_find_permitted_builtin env q v s hf hwt hw hd h1
 
 end JPV.Props
